@@ -8,6 +8,7 @@ package store
 // is compiled into a normal build.
 
 import (
+	"bufio"
 	"bytes"
 	"io"
 	"os"
@@ -36,7 +37,10 @@ func (w *verifWriter) Write(p []byte) (int, error) {
 	return w.fd.Write(p)
 }
 
-func verifWrapWriter(fd *os.File, path string) io.Writer { return &verifWriter{fd: fd, path: path} }
+// verifWrapBufio puts the reporting writer under a buffer of the same size.
+func verifWrapBufio(w *bufio.Writer, fd *os.File, path string) *bufio.Writer {
+	return bufio.NewWriterSize(&verifWriter{fd: fd, path: path}, w.Size())
+}
 
 // ---- pure kernels ----
 
